@@ -361,7 +361,9 @@ func pointInOpPolygon(pt Point64, op *OutPt) PointInPolygonResult {
 	val := 0
 
 	op2 = op.next
+	var vt verifTicker
 	for op2 != op {
+		vt.tick("pointInOpPolygon")
 		if isAbove {
 			for op2 != op && op2.pt.Y < pt.Y {
 				op2 = op2.next
